@@ -7,7 +7,7 @@ VERIF = os.environ.get("VERIF_DIR", "/verif")
 REPO = os.environ.get("VERIF_REPO", "/repo")
 WORK = os.path.join(VERIF, ".work")
 
-TAG_RX = re.compile(r"//\s*@([A-Z0-9,]+):([\w\.\-<>]+)")
+TAG_RX = re.compile(r"/[/\*]\s*@([A-Z0-9,]+):([\w\.\-<>]+)")
 
 SEMANTIC = (
     "postcondition not satisfied",
